@@ -238,7 +238,8 @@ bool FIXReader::read(f8String& to)	// read a complete FIX message
 			{
 				if (*tag != '9')
 					throw IllegalMessage(to, FILE_LINE);
-				if (!*val || val[::strspn(val, "0123456789")]) // its first byte arrived unchecked in the fixed size preamble
+				const size_t ndigits(::strspn(val, "0123456789")); // its first byte arrived unchecked in the fixed size preamble
+				if (!ndigits || val[ndigits] || ndigits > 9) // all digits, and few enough not to wrap the conversion below
 					throw IllegalMessage(to, FILE_LINE);
 
 				const unsigned mlen(fast_atoi<unsigned>(val));
